@@ -218,10 +218,14 @@ def introField (s : Schema) (f : FieldDef) : IField :=
 def isFieldsKind (k : Kind) : Bool := k == .object || k == .interface
 def isAbstract (k : Kind) : Bool := k == .interface || k == .union
 
+/-- `strings.HasPrefix(f.Name, "__")`: gqlparser's loader adds the meta fields `__schema` / `__type` to the
+    query root definition; `Fields` skips them -/
+def isMeta (f : FieldDef) : Bool := f.name.startsWith "__"
+
 /-- `Type.Fields(includeDeprecated)` -/
 def introFields (s : Schema) (incl : Bool) (d : TypeDef) : List IField :=
   if !isFieldsKind d.kind then [] else
-  (d.fields.filter fun f => !f.name.startsWith "__" && (incl || f.dep.isNone)).map (introField s)
+  (d.fields.filter fun f => !isMeta f && (incl || f.dep.isNone)).map (introField s)
 
 def introInputField (s : Schema) (f : FieldDef) : IInputValue :=
   { name := f.name, description := descr f.description, type := wrapType s f.type,
@@ -335,7 +339,8 @@ def rebuild (t : ITree) : Schema :=
 Only what the schema itself leaves free, or what is derivable: a Go map has no order (types and
 directives by name); a field's `@deprecated` without `reason` means the declared default reason;
 `PossibleTypes[name]` of a non-abstract type (gqlparser registers every object as its own possible
-type) is not schema information. -/
+type) is not schema information, nor are the meta fields (`__schema`, `__type`) gqlparser's loader adds
+to the query root. -/
 
 def normDep : Dep → Dep
   | some none => some (some "No longer supported")
@@ -344,7 +349,7 @@ def normDep : Dep → Dep
 def normField (f : FieldDef) : FieldDef := { f with dep := normDep f.dep }
 
 def normType (d : TypeDef) : TypeDef :=
-  { d with fields := if isFieldsKind d.kind then d.fields.map normField else d.fields,
+  { d with fields := if isFieldsKind d.kind then (d.fields.filter (!isMeta ·)).map normField else d.fields,
            possible := if isAbstract d.kind then d.possible else [] }
 
 def normalise (s : Schema) : Schema :=
@@ -362,7 +367,7 @@ def argWF (s : Schema) (a : ArgDef) : Bool := TRef.resolves s a.type
 
 def fieldWF (s : Schema) (k : Kind) (f : FieldDef) : Bool :=
   TRef.resolves s f.type && f.args.all (argWF s) &&
-    (if isFieldsKind k then f.default.isNone && !f.name.startsWith "__" else f.args.isEmpty)
+    (if isFieldsKind k then f.default.isNone else f.args.isEmpty)
 
 def typeWF (s : Schema) (d : TypeDef) : Bool :=
   d.fields.all (fieldWF s d.kind) &&
